@@ -622,7 +622,7 @@ class RemoteStreamFlowPath(
                         status, command, self.location, result
                     )
                 )
-            return result.strip()
+            return result.strip() or None
 
     async def chmod(self, mode: int, *, follow_symlinks=True):
         if (inner_path := await self._get_inner_path()) != self:
